@@ -627,13 +627,15 @@ def check_spec(chk, case, steps, t0, plan, spec_out, stats):
     for i, (sop, sig, expect) in enumerate(plan):
         if sop != "stop":
             opf = steps[i + 1].get("o", "").split(",")
-            if opf[0] in ("rp", "sw") and sop != "n":
-                parent_dirty[int(opf[1])] = True
-                sloppy_page[int(opf[1])] = True
+            if opf[0] in ("rp", "sw"):
+                sloppy_page[int(opf[1])] = True       # whatever was replaced may be referenced by a page
+                if sop != "n":
+                    parent_dirty[int(opf[1])] = True
             elif sop.startswith("i,") and opf[0] != "an":
                 # what is inserted is a page of one of the documents (then it has the page attributes) or just some dictionary
                 pre_t = [tree_info(x) for x in steps[i]["t"].split("/")]
-                if opf[0] == "av" or sop.endswith(",-1") or pre_t[int(opf[2])] is None or int(opf[3]) not in pre_t[int(opf[2])]["ids"]:
+                if opf[0] == "av" or sop.endswith(",-1") or pre_t[int(opf[2])] is None or int(opf[3]) not in pre_t[int(opf[2])]["ids"] \
+                        or sloppy_page[int(opf[2])]:
                     sloppy_page[int(opf[1])] = True
             elif opf[0] == "uc":
                 parent_dirty[int(opf[1])] = False
@@ -696,9 +698,10 @@ def check_spec(chk, case, steps, t0, plan, spec_out, stats):
         if why:
             chk.violation({"kind": "property-fails-on-implementation", "part": "list-spec", "case": desc, "step": i + 1,
                            "operation": cur.get("o"), "why": why, "specification": res[i], "implementation": {k: cur.get(k) for k in ("r", "t", "p", "f")},
-                           "replay": replay_line(case, steps)}, signature=sig or "")
+                           "minimal_history": concrete_ops(steps)[:i + 1],
+                           "replay": replay_line(case, steps)}, signature=(sig or "") if why == "invalid call did not raise" else "")
             stats["spec_viol"] += 1
-            if sig:
+            if sig and why == "invalid call did not raise":
                 stats["known_sig"][sig] = stats["known_sig"].get(sig, 0) + 1
             return
         stats["spec_steps"] += 1
@@ -737,6 +740,192 @@ def check_spec(chk, case, steps, t0, plan, spec_out, stats):
         stats["spec_complete"] += 1
 
 
+
+# ---------------------------------------------------------------- copy oracle (graph isomorphism), independent of the model
+# Written from the documentation of copyForeignObject (QPDF.hh): the copy is deep, "object structure will be preserved ...
+# including circular references", "shared objects will not be copied multiple times", references to pages that are not the
+# copied object itself "will be replaced with nulls" (here: a reserved null object, or the page's earlier copy), /Pages nodes
+# are never copied, the source is not changed, nothing that existed in the destination is changed.
+
+def parse_dump(text):
+    objs = {}
+    for line in text.split("\n"):
+        if not line:
+            continue
+        i, rest = line.split(":", 1)
+        if rest.startswith("S"):
+            d, data = rest[1:].rsplit("#", 1)
+            objs[int(i)] = ("s", parse_val(d), data)
+        else:
+            objs[int(i)] = parse_val(rest)
+    return objs
+
+
+def parse_val(txt):
+    toks = txt.split()
+    pos = [0]
+
+    def val():
+        t = toks[pos[0]]
+        if t == "<<":
+            pos[0] += 1
+            d = {}
+            while toks[pos[0]] != ">>":
+                k = toks[pos[0]]
+                pos[0] += 1
+                d[k] = val()
+            pos[0] += 1
+            return d
+        if t == "[":
+            pos[0] += 1
+            l = []
+            while toks[pos[0]] != "]":
+                l.append(val())
+            pos[0] += 1
+            return l
+        if t == "null":
+            pos[0] += 1
+            return None
+        if t.startswith("/"):
+            pos[0] += 1
+            return ("n", t)
+        if re.fullmatch(r"-?\d+", t):
+            if pos[0] + 2 < len(toks) + 0 and pos[0] + 2 <= len(toks) - 1 and toks[pos[0] + 2] == "R" and re.fullmatch(r"\d+", toks[pos[0] + 1]):
+                pos[0] += 3
+                return ("r", int(t))
+            pos[0] += 1
+            return int(t)
+        pos[0] += 1
+        return ("?", t)
+    return val()
+
+
+def copy_iso(src, dst, a0, b0, fresh):
+    """None if the objects reachable from b0 in dst are a faithful copy of those reachable from a0 in src; else a reason.
+    Only objects made by this call (fresh) are looked into: an object copied by an earlier call is reused as it is now
+    ("the QPDF object keeps a record of what has already been copied")"""
+    if b0 not in fresh:
+        return None
+    fwd, bwd, queue = {a0: b0}, {b0: a0}, [(a0, b0)]
+
+    def typ(o):
+        return o.get("/Type") if isinstance(o, dict) else None
+
+    def cmp(vs, vd, in_array, where):
+        if isinstance(vs, tuple) and vs[0] == "r":
+            a = vs[1]
+            sa = src.get(a)
+            if isinstance(sa, dict) and typ(sa) == ("n", "/Pages"):
+                return None if vd is None else "%s: reference to a /Pages node was not replaced by null" % where
+            if sa is None and not in_array:
+                return None if vd is None else "%s: reference to a null object kept as a key" % where
+            if isinstance(sa, dict) and typ(sa) == ("n", "/Page") and a != a0:
+                if vd is None and not in_array:
+                    return None       # reference to the reserved null object: the dump leaves such keys out
+                if not (isinstance(vd, tuple) and vd[0] == "r"):
+                    return "%s: reference to page %d became %r" % (where, a, vd)
+                b = vd[1]
+                db = dst.get(b)
+                if db is None or (isinstance(db, dict) and db.get("/Mk") == sa.get("/Mk")):
+                    return None
+                return "%s: page %d behind a page boundary was copied or replaced by something else (%d)" % (where, a, b)
+            if not (isinstance(vd, tuple) and vd[0] == "r"):
+                return "%s: reference %d became %r" % (where, a, vd)
+            b = vd[1]
+            if fwd.get(a, b) != b or bwd.get(b, a) != a:
+                return "%s: sharing not preserved (%d -> %d, but %s / %s)" % (where, a, b, fwd.get(a), bwd.get(b))
+            if a not in fwd:
+                fwd[a], bwd[b] = b, a
+                if b in fresh:
+                    queue.append((a, b))
+            return None
+        if isinstance(vs, list):
+            if not isinstance(vd, list) or len(vd) != len(vs):
+                return "%s: array %r became %r" % (where, vs, vd)
+            for k, (x, y) in enumerate(zip(vs, vd)):
+                r = cmp(x, y, True, "%s[%d]" % (where, k))
+                if r:
+                    return r
+            return None
+        if isinstance(vs, dict):
+            if not isinstance(vd, dict):
+                return "%s: dictionary became %r" % (where, vd)
+            for k in vd:
+                if k not in vs:
+                    return "%s: key %s appeared" % (where, k)
+            for k, x in vs.items():
+                r = cmp(x, vd.get(k), False, where + k)
+                if r:
+                    return r
+            return None
+        return None if vs == vd else "%s: %r became %r" % (where, vs, vd)
+    while queue:
+        a, b = queue.pop()
+        sa, db = src.get(a), dst.get(b)
+        if isinstance(sa, tuple) and sa[0] == "s":
+            if not (isinstance(db, tuple) and db[0] == "s"):
+                return "stream %d copied as non-stream %d" % (a, b)
+            if sa[2] != db[2]:
+                return "stream %d -> %d: data differs" % (a, b)
+            r = cmp(sa[1], db[1], False, "stream %d -> %d " % (a, b))
+        else:
+            r = cmp(sa, db, False, "object %d -> %d " % (a, b))
+        if r:
+            return r
+    return None
+
+
+CLEAN = ("flat3", "flat4r", "flat1", "flat8", "nested0", "nested1", "nested2", "empty")
+
+
+def check_copies(chk, case, steps, stats):
+    """copy oracle on a history run with full dumps"""
+    dirty = False
+    for i in range(1, len(steps) - 1):
+        cur, pre = steps[i], steps[i - 1]
+        op = cur.get("o", "").split(",")
+        if op[0] in ("rp", "sw", "av", "mi") or "x" in cur:
+            dirty = True          # objects changed behind the copier's memo: the documentation excludes this
+        if dirty or op[0] != "cf" or not cur.get("r", "").startswith("ok:") or "d" not in cur or "d" not in pre:
+            continue
+        d, s_, a0 = int(op[1]), int(op[2]), int(op[3])
+        if s_ == d:
+            continue
+        hx2 = lambda x: bytes.fromhex(x if x != "-" else "").decode("latin-1")
+        pre_d = [parse_dump(hx2(x)) for x in pre["d"].split("/")]
+        post_d = [parse_dump(hx2(x)) for x in cur["d"].split("/")]
+        why = None
+        fam_s = case["fa"] if s_ == 0 else case["fb"]
+        if fam_s in CLEAN and pre_d[s_] != post_d[s_]:
+            why = "copyForeignObject changed the source document"
+        if not why:
+            was_null = set(j for j, v in pre_d[d].items() if v is None)
+
+            def strip(v):
+                # the dump leaves out keys whose value is a reference to a null object: a reserved null that this call
+                # fills makes such a key appear although the object that holds it is unchanged
+                if isinstance(v, dict):
+                    return {k: strip(x) for k, x in v.items() if not (isinstance(x, tuple) and x[0] == "r" and (x[1] in was_null or x[1] not in pre_d[d]))}
+                if isinstance(v, list):
+                    return [strip(x) for x in v]
+                if isinstance(v, tuple) and v[0] == "s":
+                    return ("s", strip(v[1]), v[2])
+                return v
+            for j, v in pre_d[d].items():
+                if v is not None and strip(post_d[d].get(j)) != strip(v):
+                    why = "copyForeignObject changed object %d that existed in the destination" % j
+                    break
+        if not why and not cur["r"].startswith("ok:direct"):
+            fresh = set(j for j, v in post_d[d].items() if j not in pre_d[d] or (pre_d[d][j] is None and v is not None))
+            why = copy_iso(post_d[s_], post_d[d], a0, int(cur["r"][3:]), fresh)
+        stats["copies_checked"] = stats.get("copies_checked", 0) + 1
+        if why:
+            chk.violation({"kind": "property-fails-on-implementation", "part": "copy-oracle", "case": describe(case, steps), "step": i,
+                           "operation": cur.get("o"), "why": why, "minimal_history": concrete_ops(steps)[:i], "replay": replay_line(case, steps)})
+            stats["spec_viol"] += 1
+            return
+
+
 def concrete_ops(steps):
     return [st["o"] for st in steps[1:-1] if "o" in st]
 
@@ -760,7 +949,7 @@ def compare_model(case, isteps, msteps):
     for i, (a, b) in enumerate(zip(isteps, msteps)):
         if any("E:unm" in b.get(k, "") for k in ("r", "p", "f", "P", "F")):
             return None, True
-        if "x" in a and a.get("h") != b.get("h"):
+        if "x" in a and (a.get("h") != b.get("h") or a.get("d") != b.get("d")):
             # a stream whose data source is a stream of the other document that was itself a copy and has been replaced
             # or made unreadable since (chains of copies keep a handle to the source stream): outside the model
             return None, False
@@ -790,7 +979,7 @@ def build_cases(chk):
     n_s = 3000 if quick else 60000
     for _ in range(n_s):
         fa, fb = rng.choice([("flat3", "nested0"), ("flat4r", "flat3"), ("nested1", "flat3"), ("shared", "flat3")])
-        cases.append({"fa": fa, "fb": fb, "ba": 10, "bb": 20, "flags": rng.choice("012") + "w" * (rng.random() < 0.2),
+        cases.append({"fa": fa, "fb": fb, "ba": 10, "bb": 20, "flags": rng.choice("012") + "w" * (rng.random() < 0.2) + "v" * (rng.random() < 0.2),
                       "ops": [rng.choice(alpha) for _ in range(maxlen + 1 + rng.randrange(2))], "part": "exhaustive-sampled"})
     # random long histories over all families
     n_r = 1500 if quick else 20000
@@ -800,7 +989,7 @@ def build_cases(chk):
         hostile = rng.random() < 0.25
         pool = fams if hostile else ok_fams
         fa, fb = rng.choice(pool), rng.choice(pool)
-        cases.append({"fa": fa, "fb": fb, "ba": 10, "bb": 40, "flags": rng.choice("0012") + ("w" if rng.random() < 0.3 else ""),
+        cases.append({"fa": fa, "fb": fb, "ba": 10, "bb": 40, "flags": rng.choice("0012") + ("w" if rng.random() < 0.3 else "") + ("v" if rng.random() < 0.3 else ""),
                       "ops": gen_ops(rng, rng.choice([8, 20, 60]) if not quick else rng.choice([6, 15, 40]), hostile=hostile),
                       "part": "random-hostile" if hostile else "random"})
     return cases
@@ -893,6 +1082,11 @@ def run(chk):
         t0, plan = plans[i]
         check_spec(chk, cases[i], isteps[i], t0, plan, o, stats)
 
+    # ---- copy oracle on the histories that were run with full dumps
+    for i, c in enumerate(cases):
+        if "v" in c["flags"]:
+            check_copies(chk, c, isteps[i], stats)
+
     # ---- stream data of every object must stay readable (all histories, also outside the list specification)
     for i, c in enumerate(cases):
         for k, st in enumerate(isteps[i]):
@@ -943,7 +1137,8 @@ def run(chk):
                                  "histories_leaving_spec_domain": stats["spec_stopped"], "unmodelled_cases": stats["unmodelled"],
                                  "known_finding_hits": stats["known_sig"], "model_differences": len(tie),
                                  "implementation_aborted_after_direct_tree_damage": n_aborted_outside,
-                                 "stream_source_disturbed": stats.get("stream_source_disturbed", 0)}
+                                 "stream_source_disturbed": stats.get("stream_source_disturbed", 0),
+                                 "copies_checked_by_isomorphism_oracle": stats.get("copies_checked", 0)}
     if stats["unmodelled"] * 5 > len(cases):
         chk.violation({"kind": "correspondence-broken", "correspondence": "corr:C13:pages-copier-model",
                        "note": "more than 20%% of the histories reach a situation the model does not cover (%d of %d)" % (stats["unmodelled"], len(cases))}, no_input=True)
